@@ -337,9 +337,7 @@ func c15(c *fw.Ctx) {
 						if !c15Hinted(r, e, name, text, "single-byte") {
 							return
 						}
-						for _, ru := range rep[lo:hi] {
-							r.NontrivialH(hash64s(e.Name) ^ uint64(ru)<<8 ^ uint64(ni))
-						}
+						r.NontrivialH(hash64s(e.Name+text) ^ uint64(ni))
 					}
 					r.TallyN("single_byte_code_points_covered", int64(len(rep)))
 				})
